@@ -24,18 +24,55 @@ def canon_lv(t: Any, name: str = "S") -> Any:
     return t
 
 
-def r10_3(ck: Check) -> None:
-    q = CRP + "handle_get_blocks_message_received"
-    s = ck.summ(q, 0)
-    sp = Spec(s, ("self", "header", "message"), forall=[("p", "message.potential_start_hashes")],
-              extra={"CS": Spec(s, ("self", "header", "message")).term("self.local_peer.chain_manager.coinstate")})
-    start = sp.term("CS.block_by_hash[p].height + 1")
-    known = sp.term("p in CS.block_by_hash")
-    where = s.fi.loc
-    # empty inventory when nothing newer
+def _search_helper_form(ck: Check, s: Any, sp: Spec, start: Term, known: Term, nothing_newer: Term, on_chain_want: Term, where: str) -> bool:
+    """the locator search written as a helper that returns from inside its loop: start = first match over the locator ids
+    (None = nothing newer, height + 1 = accepted, default 1), the caller answers an empty inventory for None."""
+    from ..engine.terms import conjuncts, mk_not, subterms
+    firsts = {x for e in s.events for x in subterms(e.term) if isinstance(x, tuple) and x and x[0] == "first"}
+    firsts |= {x for e in s.events for c in e.pc for x in subterms(c.term) if isinstance(x, tuple) and x and x[0] == "first"}
+    firsts = {x for x in firsts if x[1] == sp.loops[0]}
+    if len(firsts) != 1:
+        return False
+    S = next(iter(firsts))
+    exits = [(frozenset(conjuncts(c)), v) for c, v in S[2]]
+    c1 = "get-blocks: for the first locator id we know, start = its height + 1; if the active chain has no such height, answer an empty inventory and stop"
+    c2 = "get-blocks: a locator id is accepted iff the block after it on the active chain has it as parent; otherwise the next id is tried"
+    c3 = "get-blocks: when no locator id is on the active chain, start after genesis (height 1)"
+    is_none = lambda t: t[0] == "cmp" and t[1] in ("is", "==") and {t[2], t[3]} == {S, C(None)}   # noqa
     empties = [e for e in s.events if e.kind == "call" and CRP + "send_message" in e.targets and e.term[2]
                and e.term[2][0] == sp.term("InventoryMessage([])")]
-    nothing_newer = ("cmp", "notin", start, sp.term("CS.by_height_at_head()"))
+    ea = [(c, v) for c, v in exits if v == C(None)]
+    okA = (len(ea) == 1 and ea[0][0] == frozenset([known, nothing_newer]) and exits and exits[0] == ea[0] and len(empties) == 1
+           and len(empties[0].pc) == 1 and is_none(empties[0].pc[0].term) and not empties[0].loops and empties[0].term[2][1] == sp.term("header")
+           and any(r.seq > empties[0].seq and [c.term for c in r.pc] == [empties[0].pc[0].term] for r in s.returns()))
+    if okA:
+        ck.ok("R10.3", c1, "search helper: exit None -> empty inventory", empties[0].loc)
+    else:
+        ck.violated("R10.3", c1, "search helper exits: %s; empty-inventory branch: %s" % (show(S)[:300], [e.describe()[:160] for e in empties]), where)
+    eb = [(c, v) for c, v in exits if v != C(None)]
+    if len(eb) == 1 and eb[0][1] == start and eb[0][0] == frozenset([known, mk_not(nothing_newer), on_chain_want]):
+        ck.ok("R10.3", c2, "search helper: accepted exit", where)
+    else:
+        ck.violated("R10.3", c2, "acceptance exits are %s" % [(sorted(show(x) for x in c), show(v)) for c, v in eb], where)
+    if S[3] == C(1):
+        ck.ok("R10.3", c3, "search helper default", where)
+    else:
+        ck.violated("R10.3", c3, "the fallback start is %s" % show(S[3]), where)
+    return True
+
+
+def _subst(t: Any, a: Any, b: Any) -> Any:
+    if t == a:
+        return b
+    if isinstance(t, tuple):
+        return tuple(_subst(x, a, b) for x in t)
+    return t
+
+
+def _inline_search_form(ck: Check, s: Any, sp: Spec, start: Term, known: Term, nothing_newer: Term, want: Term, where: str) -> None:
+    """the locator search written in the handler itself: for ... (empty answer + return | break) else start = 1"""
+    empties = [e for e in s.events if e.kind == "call" and CRP + "send_message" in e.targets and e.term[2]
+               and e.term[2][0] == sp.term("InventoryMessage([])")]
     rets = [r for r in s.returns() if [c.term for c in r.pc] == [known, nothing_newer]]
     construct = "get-blocks: for the first locator id we know, start = its height + 1; if the active chain has no such height, answer an empty inventory and stop"
     if len(empties) == 1 and [c.term for c in empties[0].pc] == [known, nothing_newer] and rets and list(loop_doms(empties[0])) == sp.loops \
@@ -47,7 +84,6 @@ def r10_3(ck: Check) -> None:
     fi = s.fi
     loop = [n for n in ast.walk(fi.node) if isinstance(n, ast.For)]
     on_chain = summ_test_for_break(s, loop[0]) if loop else None
-    want = s.norm.mk_cmp_s("==", sp.term("CS.by_height_at_head()[CS.block_by_hash[p].height + 1].previous_block_hash"), sp.term("p"), None)
     construct = "get-blocks: a locator id is accepted iff the block after it on the active chain has it as parent; otherwise the next id is tried"
     if on_chain == want:
         ck.ok("R10.3", construct, "", where)
@@ -61,12 +97,36 @@ def r10_3(ck: Check) -> None:
         ck.ok("R10.3", construct, "", where)
     else:
         ck.violated("R10.3", construct, "the for-else fallback is not `start = 1`", where)
+
+
+def r10_3(ck: Check) -> None:
+    q = CRP + "handle_get_blocks_message_received"
+    s = ck.summ(q, 0)
+    sp = Spec(s, ("self", "header", "message"), forall=[("p", "message.potential_start_hashes")],
+              extra={"CS": Spec(s, ("self", "header", "message")).term("self.local_peer.chain_manager.coinstate")})
+    start = sp.term("CS.block_by_hash[p].height + 1")
+    known = sp.term("p in CS.block_by_hash")
+    where = s.fi.loc
+    nothing_newer = ("cmp", "notin", start, sp.term("CS.by_height_at_head()"))
+    want = s.norm.mk_cmp_s("==", sp.term("CS.by_height_at_head()[CS.block_by_hash[p].height + 1].previous_block_hash"), sp.term("p"), None)
+    helper = _search_helper_form(ck, s, sp, start, known, nothing_newer, want, where)
+    if not helper:
+        _inline_search_form(ck, s, sp, start, known, nothing_newer, want, where)
     # the items
-    sends = [e for e in s.events if e.kind == "call" and CRP + "send_message" in e.targets and not e.loops and not residual(e, ())]
+    from ..engine.terms import subterms
+    sends = [e for e in s.events if e.kind == "call" and CRP + "send_message" in e.targets and not e.loops
+             and (not residual(e, ()) or (helper and all(c.prov == "ret-surv" for c in e.pc))) and e.term[2] and e.term[2][0] != sp.term("InventoryMessage([])")]
+    def items_of(e: Any) -> Any:
+        t = e.term[2][0]
+        if helper:          # the search value plays the role of the loop-carried start
+            for x in list(subterms(t)):
+                if isinstance(x, tuple) and x and x[0] == "first":
+                    t = _subst(t, x, ("lv", "S", 0))
+        return canon_lv(t)
     want_items = Spec(s, ("self", "header", "message"), extra={"CS": sp.term("CS"), "S": ("lv", "S", 0)}).term(
         "InventoryMessage([InventoryItem(DATA_BLOCK, CS.by_height_at_head()[h].hash()) for h in range(S, min(S + %d, CS.head().height + 1))])" % INV)
     construct = "get-blocks: answer = ids of active-chain heights start .. min(start + 500, head height + 1) - 1, in order"
-    if len(sends) == 1 and canon_lv(sends[0].term[2][0]) == want_items and sends[0].term[2][1] == sp.term("header"):
+    if len(sends) == 1 and items_of(sends[0]) == want_items and sends[0].term[2][1] == sp.term("header"):
         ck.ok("R10.3", construct, "", sends[0].loc)
     else:
         ck.violated("R10.3", construct, "inventory is %s" % [show(e.term[2][0])[:260] for e in sends], where)
@@ -93,9 +153,11 @@ def r10_4(ck: Check) -> None:
     st = {show(e.term): e for e in s.events if e.kind == "store"}
     w = st.get("self.waiting_for_inventory")
     t = st.get("self.last_empty_inventory_response_at")
-    rets = [r for r in s.returns() if empty in [c.term for c in r.pc]]
+    nonempty_ = sp.term("message.items != []")
+    sends_ = [e for e in s.events if e.kind == "call" and (CRP + "send_message" in e.targets or CRP + "check_inventory_messages" in e.targets)]
+    quiet = all(nonempty_ in [c.term for c in e.pc] for e in sends_)      # nothing is sent or requested on the empty path
     construct = "inventory: an empty answer ends the wait (waiting_for_inventory = False, time recorded) and nothing is requested"
-    if w is not None and t is not None and w.value == C(False) and empty in [c.term for c in w.pc] and empty in [c.term for c in t.pc] and rets:
+    if w is not None and t is not None and w.value == C(False) and empty in [c.term for c in w.pc] and empty in [c.term for c in t.pc] and quiet:
         ck.ok("R10.4", construct, "", w.loc)
     else:
         ck.violated("R10.4", construct, "empty-inventory branch changed", s.fi.loc)
